@@ -550,9 +550,16 @@ class Sim:
         await asyncio.sleep(ms / 1000.0)
 
     async def sleep_until_ms(self, t_ms: float) -> None:
-        d = t_ms - self.clock.ms()
-        if d > 0:
-            await asyncio.sleep(d / 1000.0)
+        """Wake up at exactly t_ms/1000 on the virtual clock (no accumulation of float error from relative sleeps)."""
+        when = t_ms / 1000.0
+        if when <= self.clock.t:
+            return
+        fut = self.loop.create_future()
+        handle = self.loop.call_at(when, lambda: fut.done() or fut.set_result(None))
+        try:
+            await fut
+        finally:
+            handle.cancel()
 
 
 # ---------------------------------------------------------------------------------------
